@@ -98,6 +98,109 @@ def encText (bs : List UInt8) : String :=
       | .ok t => "ok " ++ hexStr t
       | .error e => errTag e
 
+def f64OfHex (s : String) : Float := Float.ofBits (UInt64.ofNat (natOfHex s))
+def f32OfHex (s : String) : Float32 := Float32.ofBits (UInt32.ofNat (natOfHex s))
+def strOfHex (s : String) : Str := utf8Lossy (unhex s)
+
+def parseColor4 (s : String) : Option Color :=
+  match (s.splitOn ".").map String.toNat? with
+  | [some r, some g, some b, some a] => some ⟨r, g, b, a⟩
+  | _ => none
+
+def parseBreak (p : String) : Option (BreakPeriod Float) :=
+  match p.splitOn ":" with
+  | [a, b] => some ⟨f64OfHex a, f64OfHex b⟩
+  | _ => none
+
+def parseBreaks (value : String) : List (BreakPeriod Float) :=
+  if value == "-" then [] else (value.splitOn ",").filterMap parseBreak
+
+def parseColors4 (value : String) : List Color :=
+  if value == "-" then [] else (value.splitOn ",").filterMap parseColor4
+
+def parseBookmarks (value : String) : List Int :=
+  if value == "-" then [] else (value.splitOn ",").filterMap String.toInt?
+
+/-- one `field=value` edit through the public fields (C03); `none` = unknown field / bad value. -/
+def applyEdit (m : Beatmap Float Float32) (field value : String) : Option (Beatmap Float Float32) :=
+  let md := m.metadata
+  let g := m.general
+  let e := m.editor
+  let d := m.difficulty
+  match field with
+  | "title" => some { m with metadata := { md with title := strOfHex value } }
+  | "title_unicode" => some { m with metadata := { md with titleUnicode := strOfHex value } }
+  | "artist" => some { m with metadata := { md with artist := strOfHex value } }
+  | "artist_unicode" => some { m with metadata := { md with artistUnicode := strOfHex value } }
+  | "creator" => some { m with metadata := { md with creator := strOfHex value } }
+  | "version" => some { m with metadata := { md with version := strOfHex value } }
+  | "source" => some { m with metadata := { md with source := strOfHex value } }
+  | "tags" => some { m with metadata := { md with tags := strOfHex value } }
+  | "audio_file" => some { m with general := { g with audioFile := strOfHex value } }
+  | "background_file" => some { m with events := { m.events with backgroundFile := strOfHex value } }
+  | "beatmap_id" => value.toInt?.map fun n => { m with metadata := { md with beatmapId := n } }
+  | "beatmap_set_id" => value.toInt?.map fun n => { m with metadata := { md with beatmapSetId := n } }
+  | "preview_time" => value.toInt?.map fun n => { m with general := { g with previewTime := n } }
+  | "countdown_offset" => value.toInt?.map fun n => { m with general := { g with countdownOffset := n } }
+  | "beat_divisor" => value.toInt?.map fun n => { m with editor := { e with beatDivisor := n } }
+  | "grid_size" => value.toInt?.map fun n => { m with editor := { e with gridSize := n } }
+  | "audio_lead_in" => some { m with general := { g with audioLeadIn := f64OfHex value } }
+  | "distance_spacing" => some { m with editor := { e with distanceSpacing := f64OfHex value } }
+  | "timeline_zoom" => some { m with editor := { e with timelineZoom := f64OfHex value } }
+  | "slider_multiplier" => some { m with difficulty := { d with sliderMultiplier := f64OfHex value } }
+  | "slider_tick_rate" => some { m with difficulty := { d with sliderTickRate := f64OfHex value } }
+  | "stack_leniency" => some { m with general := { g with stackLeniency := f32OfHex value } }
+  | "hp_drain_rate" => some { m with difficulty := { d with hpDrainRate := f32OfHex value } }
+  | "circle_size" => some { m with difficulty := { d with circleSize := f32OfHex value } }
+  | "overall_difficulty" => some { m with difficulty := { d with overallDifficulty := f32OfHex value } }
+  | "approach_rate" => some { m with difficulty := { d with approachRate := f32OfHex value } }
+  | "letterbox_in_breaks" => some { m with general := { g with letterboxInBreaks := value == "1" } }
+  | "widescreen_storyboard" => some { m with general := { g with widescreenStoryboard := value == "1" } }
+  | "epilepsy_warning" => some { m with general := { g with epilepsyWarning := value == "1" } }
+  | "samples_match_playback_rate" => some { m with general := { g with samplesMatchPlaybackRate := value == "1" } }
+  | "special_style" => some { m with general := { g with specialStyle := value == "1" } }
+  | "mode" => value.toNat?.map fun n => { m with general := { g with mode := GameMode.ofIdx n } }
+  | "countdown" =>
+    (match value with
+     | "0" => some CountdownType.none | "1" => some CountdownType.normal
+     | "2" => some CountdownType.halfSpeed | "3" => some CountdownType.doubleSpeed | _ => Option.none).map
+      fun c => { m with general := { g with countdown := c } }
+  | "bookmarks" => some { m with editor := { e with bookmarks := parseBookmarks value } }
+  | "breaks" => some { m with events := { m.events with breaks := parseBreaks value } }
+  | "combo_colors" => some { m with colors := { m.colors with customComboColors := parseColors4 value } }
+  | "custom_color" =>
+    match value.splitOn "=" with
+    | [n, c] => (parseColor4 c).map fun col =>
+        { m with colors := { m.colors with customColors := setCustomColor (strOfHex n) col m.colors.customColors } }
+    | _ => none
+  | _ => none
+
+def applyEdits (m : Beatmap Float Float32) : List String → Option (Beatmap Float Float32)
+  | [] => some m
+  | e :: rest =>
+    match e.splitOn "=" with
+    | f :: v :: more => (applyEdit m f ("=".intercalate (v :: more))).bind fun m' => applyEdits m' rest
+    | _ => none
+
+/-- C03: decode, edit, encode, decode: `text ## M2`. -/
+def editText (bs : List UInt8) (edits : List String) : String :=
+  fmtIo (decodeBytes (beatmapDecoder (F := Float) (P := Float32)) bs) fun st =>
+    match st.finish with
+    | .error e => errTag e
+    | .ok m0 =>
+      match applyEdits m0 edits with
+      | none => "bad-edit"
+      | some m =>
+        match Encode.encode m with
+        | .error e => errTag e
+        | .ok t =>
+          match decodeBytes (beatmapDecoder (F := Float) (P := Float32)) (utf8Encode t) with
+          | .error k => "err2 " ++ k.tag
+          | .ok st2 =>
+            match st2.finish with
+            | .error e => errTag e
+            | .ok m2 => "ok " ++ hexStr t ++ " ## " ++ dumpBeatmap m2
+
 /-- decode → encode → decode: `M1 ## text ## M2`. -/
 def rtText (bs : List UInt8) : String :=
   fmtIo (decodeBytes (beatmapDecoder (F := Float) (P := Float32)) bs) fun st =>
@@ -123,6 +226,7 @@ def dispatchWhole (toks : List String) : Option String :=
   | ["dec9", hex] => some (WholeCmd.dec9 (unhex hex))
   | ["enc", hex] => some (WholeCmd.encText (unhex hex))
   | ["rt", hex] => some (WholeCmd.rtText (unhex hex))
+  | "edit" :: hex :: edits => some (WholeCmd.editText (unhex hex) edits)
   | ["decshift", _, a, b] => some (WholeCmd.decBeatmap (unhex a) ++ " ## " ++ WholeCmd.decBeatmap (unhex b))
   | _ => none
 end Rosu
